@@ -32,7 +32,7 @@ def instances(tier, seed):
                                         symbolic=["input ciphertext words (see symbolic_input_words; the rest a fixed digit pattern)", "prior output content", "external-product scratch (exactly glwe_external_product_tmp_bytes)"], stubs=EP_STUBS,
                                         functions=["poulpy-core/src/external_product/glwe.rs::glwe_external_product / _assign / _internal (+ tmp_bytes)", "poulpy-core/src/encryption/ggsw.rs::ggsw_encrypt_sk", "poulpy-core/src/layouts/prepared/ggsw.rs::ggsw_prepare",
                                                    "poulpy-core/src/decryption/glwe.rs::glwe_decrypt_default"] + c03.PROBE8,
-                                        timeout=7200 if nsym == 999 else 3000, mem_gb=28, core=core))
+                                        timeout=2400 if nsym == 999 else 3000, mem_gb=28, core=core))
     return out
 
 
